@@ -180,7 +180,9 @@ def zsets_cases():
     for lo in lex:
         for hi in lex:
             yield mk + [[b'zrangebylex', b'z', lo, hi], [b'zlexcount', b'z', lo, hi], [b'zrevrangebylex', b'z', hi, lo], [b'zrangebylex', b'z', lo, hi, b'limit', b'1', b'1'],
-                        [b'zrangebylex', b'z', lo, hi, b'limit', b'0', b'0'], [b'zrevrangebylex', b'z', hi, lo, b'limit', b'1', b'-1']]
+                        [b'zrangebylex', b'z', lo, hi, b'limit', b'0', b'0'], [b'zrevrangebylex', b'z', hi, lo, b'limit', b'1', b'-1'],
+                        [b'zrangebylex', b'z', lo, hi, b'limit', b'0', b'-1'], [b'zrevrangebylex', b'z', hi, lo, b'limit', b'0', b'-1'],
+                        [b'zrangebylex', b'z', lo, hi, b'limit', b'-1', b'1'], [b'zrangebylex', b'z', lo, hi, b'limit', b'9', b'9']]
             yield mk + [[b'zremrangebylex', b'z', lo, hi], [b'zrange', b'z', b'0', b'-1']]
 
 
@@ -512,3 +514,115 @@ def subscriber_mode_cases():
     for sub in ([b'subscribe', b'ch'], [b'psubscribe', b'c*'], [b'subscribe', b'a', b'b']):
         for f in probes:
             yield mk + [sub, f, [b'ping'], [b'unsubscribe'] if sub[0] == b'subscribe' else [b'punsubscribe'], f]
+
+
+# ------------------------------------------------------------------ glob users never crash (C04, C16)
+
+def glob_crash_cases():
+    """every short pattern over the metacharacters, and every range `[x-y]` whose end points are plain, special or escaped characters, through every
+    user of the matcher (KEYS, SCAN MATCH, SSCAN MATCH, pattern delivery of PUBLISH to a pattern subscriber): none may raise"""
+    import itertools
+    alpha = [b'a', b'b', b'[', b']', b'^', b'-', b'\\', b'*', b'?', b'+', b'd']
+    pats = [b''.join(t) for n in (1, 2, 3) for t in itertools.product(alpha, repeat=n)]
+    ends = alpha + [b'\\d', b'\\\\', b'\\]', b'\\-', b'\xff', b'\n']
+    pats += [b'[' + a + b'-' + b + b']' for a in ends for b in ends]
+    pats += [b'[^' + a + b'-' + b for a in ends[:8] for b in ends[:8]] + [b'x[' + a + b'-' + b + b']*' for a in (b'+', b'\\', b'a') for b in ends]
+    seen = set()
+    for p in pats:
+        if p in seen:
+            continue
+        seen.add(p)
+        case = [('open', 2), [b'mset', b'ab', b'1', b'd', b'1', b'+', b'1', b'a-b', b'1'], [b'sadd', b'ks', b'a', b'd', b'+', b'-'], [b'keys', p], [b'scan', b'0', b'match', p],
+                [b'sscan', b'ks', b'0', b'match', p], ('cmd', 2, [b'psubscribe', p]), [b'publish', b'ab', b'm'], [b'publish', b'd', b'm'], [b'publish', p, b'm'],
+                ('cmd', 2, [b'punsubscribe', p]), [b'publish', b'ab', b'm']]
+        yield Always(case) if len(p) >= 5 else case
+
+
+# ------------------------------------------------------------------ databases (C13)
+
+def db_cases():
+    """SELECT / MOVE / SWAPDB / FLUSH* directly and queued in MULTI, followed by key commands in the same transaction: every command works on the
+    database selected at the moment IT runs; afterwards every database is read back from a second connection"""
+    readback = [('cmd', 2, [b'select', d]) for d in ()]
+    def back():
+        out = []
+        for d in (b'0', b'1', b'2'):
+            out += [('cmd', 2, [b'select', d]), ('cmd', 2, [b'keys', b'*']), ('cmd', 2, [b'get', b'k']), ('cmd', 2, [b'dbsize'])]
+        return out
+    inner = [
+        [[b'select', b'1'], [b'set', b'k', b'in1'], [b'dbsize'], [b'rpush', b'l', b'x']],
+        [[b'set', b'k', b'in0'], [b'select', b'1'], [b'set', b'k', b'in1'], [b'select', b'2'], [b'append', b'k', b'in2'], [b'get', b'k']],
+        [[b'select', b'1'], [b'select', b'0'], [b'set', b'k', b'back0']],
+        [[b'set', b'k', b'v'], [b'move', b'k', b'1'], [b'get', b'k'], [b'select', b'1'], [b'get', b'k']],
+        [[b'set', b'k', b'v'], [b'swapdb', b'0', b'1'], [b'get', b'k'], [b'set', b'j', b'w'], [b'select', b'1'], [b'get', b'k'], [b'get', b'j']],
+        [[b'select', b'1'], [b'set', b'k', b'v'], [b'flushdb'], [b'set', b'j', b'w'], [b'select', b'0'], [b'dbsize']],
+        [[b'select', b'16'], [b'set', b'k', b'still0']], [[b'select', b'x'], [b'set', b'k', b'still0']],
+        [[b'select', b'1'], [b'keys', b'*'], [b'scan', b'0'], [b'randomkey'], [b'exists', b'k'], [b'type', b'k'], [b'ttl', b'k']],
+        [[b'select', b'1'], [b'expire', b'k', b'100'], [b'ttl', b'k'], [b'rename', b'k', b'k2'], [b'select', b'0'], [b'ttl', b'k']],
+        [[b'select', b'1'], [b'blpop', b'l', b'0'], [b'sort', b'l', b'store', b'k'], [b'zunionstore', b'z', b'1', b'zz'], [b'publish', b'ch', b'm']],
+    ]
+    seed = [[b'set', b'k', b'zero'], ('cmd', 2, [b'select', b'1']), ('cmd', 2, [b'mset', b'k', b'one', b'only1', b'x']), ('cmd', 2, [b'rpush', b'l', b'a', b'b']),
+            ('cmd', 2, [b'zadd', b'zz', b'1', b'm'])]
+    for cmds in inner:
+        yield Always([('open', 2)] + seed + [[b'multi']] + cmds + [[b'exec'], [b'get', b'k'], [b'dbsize'], [b'set', b'after', b'1']] + back())
+        yield Always([('open', 2)] + seed + cmds + [[b'get', b'k'], [b'dbsize'], [b'set', b'after', b'1']] + back())
+        yield Always([('open', 2)] + seed + [[b'multi']] + cmds + [[b'discard'], [b'get', b'k'], [b'set', b'after', b'1']] + back())
+        yield Always([('open', 2)] + seed + [[b'watch', b'k'], [b'multi']] + cmds + [('cmd', 2, [b'select', b'0']), ('cmd', 2, [b'set', b'k', b'dirty']), [b'exec'], [b'get', b'k']] + back())
+
+
+# ------------------------------------------------------------------ pub/sub (C10, C16)
+
+def pubsub_glob_cases():
+    """pattern subscriptions with sets, escapes and escape-only patterns (no *, ?, [ at all), published to literally and to what they match"""
+    pats = [b'ch[1]', b'a\\*b', b'[ab', b'h[0-9]', b'c?1', b'k\\', b'\\**', b'ab\\**d', b'[^a]*', b'x[a-c]y', b'*', b'[]', b'[^]',
+            b'a\\b', b'\\a\\b', b'a\\\\b', b'\\a', b'ab\\', b'a\\?b', b'a\\[b', b'\\h5', b'ab']
+    for p in pats:
+        chans = [p, b'ch1', b'a*b', b'axb', b'*x', b'ab*zzd', b'ab*d', b'h5', b'xby', b'k\\', b'[ab', b'a', b'ab', b'a\\b', b'a?b', b'a[b', b'ab\\']
+        yield Always([('open', 2), ('open', 3), [b'set', p, b'1'], [b'set', b'ch1', b'1'], [b'set', b'ab*d', b'1'], [b'set', b'*x', b'1'], [b'set', b'ab', b'1'], [b'keys', p],
+                      [b'scan', b'0', b'match', p], ('cmd', 2, [b'psubscribe', p]), ('cmd', 3, [b'subscribe', b'ab', p])] + [[b'publish', c, b'm'] for c in chans] +
+                     [('cmd', 2, [b'punsubscribe', p])] + [[b'publish', c, b'm2'] for c in chans[:6]])
+
+
+def pubsub_server_cases():
+    """subscriptions are server-wide and survive everything that is about databases or scripts"""
+    subs = [('open', 2), ('open', 3), ('cmd', 2, [b'subscribe', b'ch1', b'ch2']), ('cmd', 2, [b'psubscribe', b'c*']), ('cmd', 3, [b'select', b'3']), ('cmd', 3, [b'psubscribe', b'ch?'])]
+    for act in ([[b'flushall']], [[b'flushdb']], [[b'swapdb', b'0', b'1']], [[b'select', b'5'], [b'flushall']], [[b'script', b'flush']], [[b'multi'], [b'flushall'], [b'exec']],
+                [[b'save']], [[b'select', b'2'], [b'swapdb', b'2', b'0']], [('conn', 0), ('conn', 1)], [[b'multi'], [b'publish', b'ch1', b'q'], [b'discard']]):
+        yield Always(subs + list(act) + [[b'publish', b'ch1', b'm1'], [b'publish', b'ch2', b'm2'], [b'publish', b'zz', b'm3'], ('cmd', 2, [b'unsubscribe', b'ch1']),
+                                         [b'publish', b'ch1', b'm4'], ('cmd', 2, [b'punsubscribe']), ('cmd', 2, [b'unsubscribe']), ('cmd', 3, [b'punsubscribe', b'ch?']),
+                                         [b'publish', b'ch1', b'm5']])
+
+
+# ------------------------------------------------------------------ errors that are found late (C08)
+
+def late_error_cases():
+    """commands whose refusal is decided by an argument that stands AFTER the data (a bad option, a huge expire time, a bad later pair, a later key of the
+    wrong type), on a key of every type: the error reply must come with nothing written, nothing deleted and no watcher alarmed"""
+    HUGE = b'9223372036854775807'
+    bad = [
+        [b'set', b'k', b'new', b'ex', HUGE], [b'set', b'k', b'new', b'px', HUGE], [b'set', b'k', b'new', b'ex', b'9223372036854775'], [b'set', b'k', b'new', b'ex', b'0'],
+        [b'set', b'k', b'new', b'px', b'-1'], [b'set', b'k', b'new', b'ex'], [b'set', b'k', b'new', b'px'], [b'set', b'k', b'new', b'ex', b'abc'], [b'set', b'k', b'new', b'nx', b'xx'],
+        [b'set', b'k', b'new', b'keepttl', b'ex', b'5'], [b'set', b'k', b'new', b'ex', b'5', b'px', b'5'], [b'set', b'k', b'new', b'get', b'ex', HUGE], [b'set', b'k', b'new', b'bogus'],
+        [b'setex', b'k', HUGE, b'new'], [b'setex', b'k', b'18446744073709561', b'new'], [b'setex', b'k', b'0', b'new'], [b'setex', b'k', b'-5', b'new'], [b'setex', b'k', b'abc', b'new'],
+        [b'psetex', b'k', HUGE, b'new'], [b'psetex', b'k', b'9223372036854775806', b'new'], [b'psetex', b'k', b'0', b'new'],
+        [b'expire', b'k', HUGE], [b'pexpire', b'k', HUGE], [b'expireat', b'k', HUGE], [b'expire', b'k', b'abc'],
+        [b'mset', b'k', b'new', b'j'], [b'msetnx', b'k', b'new', b'j'], [b'hset', b'k', b'f', b'v', b'g'], [b'hmset', b'k', b'f', b'v', b'g'],
+        [b'zadd', b'k', b'1', b'a', b'x', b'b'], [b'zadd', b'k', b'1', b'a', b'2'], [b'zadd', b'k', b'nx', b'xx', b'1', b'a'], [b'zadd', b'k', b'incr', b'1', b'a', b'2', b'b'],
+        [b'zadd', b'k', b'1', b'a', b'nan', b'b'], [b'zincrby', b'k', b'nan', b'a'], [b'zincrby', b'k', b'x', b'a'],
+        [b'linsert', b'k', b'sideways', b'a', b'x'], [b'lmove', b'k', b'j', b'left', b'sideways'], [b'lmove', b'k', b'j', b'up', b'left'], [b'lset', b'k', b'99', b'x'],
+        [b'lpop', b'k', b'-1'], [b'rpop', b'k', b'1', b'2'], [b'spop', b'k', b'-1'], [b'spop', b'k', b'1', b'2'], [b'setrange', b'k', b'536870912', b'x'], [b'setrange', b'k', b'-1', b'x'],
+        [b'setbit', b'k', b'1', b'2'], [b'setbit', b'k', b'4294967296', b'1'], [b'incrbyfloat', b'k', b'inf'], [b'incrbyfloat', b'k', b'x'], [b'incrby', b'k', b'9223372036854775807'],
+        [b'hincrby', b'k', b'f', b'x'], [b'hincrbyfloat', b'k', b'f', b'inf'], [b'hincrbyfloat', b'k', b'f', b'nan'],
+        [b'zunionstore', b'k', b'1', b'zz', b'weights', b'x'], [b'zunionstore', b'k', b'1', b'zz', b'aggregate', b'avg'], [b'zunionstore', b'k', b'2', b'zz'], [b'zunionstore', b'k', b'0', b'zz'],
+        [b'zinterstore', b'k', b'2', b'nokey', b'str'], [b'zinterstore', b'k', b'2', b'nokey', b'zz', b'weights', b'1'], [b'zinterstore', b'k', b'2', b'zz', b'nokey', b'aggregate', b'x'],
+        [b'zunionstore', b'k', b'2', b'zz', b'str'], [b'sinterstore', b'k', b'ss', b'str'], [b'sunionstore', b'k', b'nokey', b'str'], [b'sdiffstore', b'k', b'ss', b'ss', b'str'],
+        [b'sinterstore', b'k', b'nokey', b'str'], [b'pfmerge', b'k', b'ss', b'str'], [b'smove', b'ss', b'k', b'm'], [b'smove', b'k', b'str', b'a'], [b'rpoplpush', b'll', b'k'], [b'rpoplpush', b'k', b'str'],
+        [b'sort', b'll', b'store', b'k', b'bogus'], [b'sort', b'll', b'limit', b'0', b'store', b'k'], [b'sort', b'll', b'store'], [b'sort', b'lbad', b'store', b'k'], [b'sort', b'll', b'by', b'w_*', b'store', b'k', b'limit', b'x', b'1'],
+        [b'rename', b'nokey', b'k'], [b'renamenx', b'nokey', b'k'], [b'restore', b'k', b'-1', b'x'], [b'restore', b'k', b'0', b'garbage', b'replace'], [b'restore', b'k', b'abc', b'x', b'replace'],
+        [b'move', b'k', b'16'], [b'move', b'k', b'x'], [b'swapdb', b'0', b'16'], [b'select', b'16'], [b'append', b'k'], [b'getset', b'k'], [b'lpush', b'k'], [b'sadd', b'k'],
+    ]
+    for tname, mk in sorted(TYPES.items()) + [('missing', []), ('empty-string', [[b'set', b'k', b'']]), ('string+ttl', [[b'set', b'k', b'v', b'ex', b'100']])]:
+        pre = mk + [[b'zadd', b'zz', b'1', b'm'], [b'sadd', b'ss', b'm'], [b'rpush', b'll', b'2', b'1'], [b'rpush', b'lbad', b'1', b'x'], [b'set', b'str', b'v']]
+        for f in bad:
+            case = pre + [list(f), [b'type', b'k'], [b'ttl', b'k'], [b'dbsize']]
+            yield Always(case) if tname in ('string+ttl', 'list') else case
